@@ -51,11 +51,11 @@ def run(ctx):
     viols, regen = regen_check(scratch)
     corpus = [os.path.join(vlib.REPO, f) for f in CORPUS if os.path.exists(os.path.join(vlib.REPO, f))]
     if tier == "quick":
-        plans = [("L1,L5,LB,LL", 64, 1, 1)]		# levels, shards, noalign, stride
+        plans = [("L1,L5,LB,LL,LW", 64, 1, 1)]		# levels, shards, noalign, stride
         builds = [("noorc", "-O2", [("noorc-O2", None, "nan")]), ("noorc", "-O0", [("noorc-O0", None, "nan")]),
                   ("orc", "-O2", [("backup-O2", "backup", "nan")])]
     else:
-        plans = [("L1,L5,LB,LL", 96, 0, 1), ("L2", 192, 0, 4), ("L3", 64, 0, 2)]
+        plans = [("L1,L5,LB,LL,LW", 96, 0, 1), ("L2", 192, 0, 4), ("L3", 64, 0, 2)]
         builds = [("noorc", "-O2", [("noorc-O2", None, "nan")]), ("noorc", "-O0", [("noorc-O0", None, "nan")]),
                   ("orc", "-O2", [("backup-O2", "backup", "nan")]), ("orc", "-O0", [("backup-O0", "backup", "nan")]),
                   ("noorc", "clang:-O2", [("noorc-clang-O2", None, "nan")]), ("orc", "clang:-O1", [("backup-clang-O1", "backup", "nan")])]
